@@ -1182,7 +1182,7 @@ def check_encode_wrong_shapes(ctx, cs, members):
   c = ctx.counters
   rng = ctx.rng
   n = int(ctx.params.get('wrong_shapes', 3))
-  if not n or not members or cs.plain:
+  if not n or not members:
     return True
   m = members[0]
   ok, d = decode(ctx, cs, cs.dna(m), m)
@@ -1244,7 +1244,7 @@ def check_history(ctx, cs, members, steps):
   """Returns False when the template had to be rebuilt."""
   c = ctx.counters
   rng = ctx.rng
-  if not steps or not members or cs.plain:
+  if not steps or not members:
     return True
   try:
     spec = cs.t.dna_spec()
@@ -1504,7 +1504,7 @@ def _random_case(rng):
     kind = 'rendered'
   if rng.random() < (0.2 if kind == 'bound' else 0.4):
     W = TT.random_where(rng, T)
-  if not bad and kind != 'bound' and T['t'] in ('dict', 'list') and rng.random() < 0.06:
+  if not bad and kind != 'bound' and T['t'] in ('dict', 'list') and rng.random() < 0.12:
     plain = True
   return T, W, plain, bad, kind
 
@@ -1520,6 +1520,7 @@ def run_case(ctx, i):
     T, _ = TT.from_space(part[i], rng, tags=True)
     W = TT.random_where(rng, T) if rng.random() < 0.25 else TT.ALL
     kind = 'family'
+    plain = T['t'] in ('dict', 'list') and rng.random() < 0.08
   elif i < len(part) + len(grid):
     c['grid_cases'] += 1
     T, W, kind = grid[i - len(part)], TT.ALL, 'grid'
